@@ -123,8 +123,14 @@ func runWHEmpty(c *Ctx, rule string) {
 		key := short + ".(*ParquetWriter).Write"
 		pos := u.Pos(wr.Pos())
 		counters := map[*types.Var]bool{}
-		for _, f := range incrementedFields(add) {
-			counters[f] = true
+		// (in Add itself or in a method of the writer Add hands the record to)
+		for _, g := range unitFns(u, add) {
+			if g != add && (g.Signature.Recv() == nil || len(g.Params) == 0 || !types.Identical(g.Params[0].Type(), add.Params[0].Type())) {
+				continue
+			}
+			for _, f := range incrementedFields(g) {
+				counters[f] = true
+			}
 		}
 		if len(counters) == 0 {
 			r.undecided(rule, key, pos, "no row counter discovered in Add")
